@@ -62,6 +62,17 @@ def run():
             for key, info in res["rejected"].items():
                 chk.report("c09:num:%s:%s" % (name, key), "build '%s': exact arithmetic call rejected by NumTrace: %s" % (name, info.get("call")),
                            "num_%s_%s.json" % (name, __import__("re").sub(r"[^A-Za-z0-9_]+", "_", key)), {"build": name, "key": key, "info": info})
+        # ---- source-level folding across the fixnum/bignum boundary: literal operands in shapes the simplifier rewrites
+        #      (direct, constant lets, shadowing, constant tests), every build, judged by Num.tla (values beyond TLC's ints)
+        for name, b in builds:
+            res = numcommon.run_variant(chk, sc, b, "c09fold_" + name, scale=1.0 if chk.thorough else 0.6, report=False, code=True)
+            chk.cov.setdefault("fold_literals", {})[name] = {"cases": res["cases"], "accepted": res["accepted"]}
+            total_ok += res["accepted"]
+            if res["cases"] < 500:
+                raise Broken("fold cases were not generated")
+            for key, info in res["rejected"].items():
+                chk.report("c09:fold:%s:%s" % (name, key), "build '%s': folded literal arithmetic rejected by NumTrace: %s => %s" % (name, info.get("source"), str(info.get("implementation_output"))[:200]),
+                           "fold_%s_%s.json" % (name, __import__("re").sub(r"[^A-Za-z0-9_]+", "_", key)), {"build": name, "key": key, "info": info})
         chk.cov["traces_validated_against_impl"] = total_ok
         chk.cov["builds"] = [v[0] + " " + v[1] for v in VARIANTS]
         chk.cov["evaluations"] = len(progs) * len(VARIANTS)
@@ -71,7 +82,7 @@ def run():
         chk.sample({"scheme": progs[0][1].scm[:800], "outputs": {n: outs[n].get(progs[0][0]) for n in outs}})
         if total_ok < len(progs) and not chk.violations:
             raise Broken("too few programs validated")
-        chk.assumptions += ["constants stay within 32-bit (TLC integers): fixnum-overflowing constant folding is covered by C04's arithmetic traces, not here",
+        chk.assumptions += ["Core-machine programs keep constants within 32 bits (TLC integers); fixnum-overflowing folds are covered by the literal-operand cases judged by Num.tla (single operations in six syntactic shapes, not arbitrary nestings)",
                             "a Simplify.tla transcription of simplify.c is not built: the claim is checked end to end (machine = both builds)"]
     return chk.finish()
 
